@@ -262,6 +262,11 @@ func (sdb *DbSqlite) reset() error {
 // verifyNodeHashes recursively verifies all the hash values for all nodes
 // this walks to the bottom of the tree, and then works its way back up
 func (sdb *DbSqlite) verifyNodeHashes(fix bool) error {
+	// the nodes are read outside of the transaction below, so keep writers
+	// out while we compare (and possibly rewrite) hashes
+	sdb.writeLock.Lock()
+	defer sdb.writeLock.Unlock()
+
 	// must run this in a transaction so we don't get any modifications
 	// while reading child nodes. This may be expensive for a large DB, so
 	// we may want to eventually break this down into transactions for each node
